@@ -36,6 +36,22 @@ def _canon(v, depth: int = 0):
         return ["re", v.pattern, v.flags]
     if isinstance(v, (types.FunctionType, types.BuiltinFunctionType, type, types.ModuleType)):
         return ["obj", type(v).__name__, getattr(v, "__qualname__", getattr(v, "__name__", "?"))]
+    if isinstance(v, types.GeneratorType):
+        # a generator bound at module level is state: where it stands (and whether it is exhausted) is part of the snapshot
+        fr = v.gi_frame
+        return ["generator", getattr(v, "__qualname__", "?"), "exhausted" if fr is None else ("running" if v.gi_running else "suspended"),
+                -1 if fr is None else fr.f_lasti]
+    if hasattr(v, "__next__") and hasattr(v, "__iter__"):
+        import operator
+        try:
+            hint = operator.length_hint(v, -1)
+        except Exception:
+            hint = -2
+        try:
+            red = repr(v.__reduce__()[1:])[:300] if type(v).__module__ in ("builtins", "itertools", "collections") else ""
+        except Exception:
+            red = ""
+        return ["iterator", type(v).__name__, hint, re.sub(r"0x[0-9a-fA-F]+", "0x", red)]
     # any other object (counters, iterators, instances of the transpiler's own classes): its repr with addresses removed
     # (itertools.count, deque iterators ... show their position there) and, where it has one, its instance dictionary
     try:
